@@ -591,4 +591,333 @@ theorem CBitSet.remove_inv (s : CBitSet) (v : Nat) (h : CInv s) : CInv (s.remove
 theorem CBitSet.clear_inv (s : CBitSet) : CInv s.clear := cInv_empty
 theorem CBitSet.clear_abs (s : CBitSet) : s.clear.abs = BitSet.empty := rfl
 
+/-! ### `insert_range` -/
+
+theorem cInsertRangeStep_spec (start end_ : Nat) (st : CBitSet × Nat) (M : Nat)
+    (h : CInvS st.1.pageMap st.1.pages)
+    (hlo : max start (majorStart M) ≤ min end_ (majorStart M + 511)) :
+    CInvS (cInsertRangeStep start end_ st M).1.pageMap (cInsertRangeStep start end_ st M).1.pages ∧
+    (aview (cInsertRangeStep start end_ st M).1.pageMap (cInsertRangeStep start end_ st M).1.pages,
+      (cInsertRangeStep start end_ st M).2)
+      = insertRangeStep start end_ (aview st.1.pageMap st.1.pages, st.2) M ∧
+    (cInsertRangeStep start end_ st M).1.len = st.1.len := by
+  obtain ⟨e1, e2, e3, e4, e5⟩ := ensure_specS st.1 M h
+  generalize he : st.1.ensurePageIndexForMajor M = e at e1 e2 e3 e4 e5
+  have hl := lookup_aview e.1.pageMap e.1.pages e1 _ _ e5
+  have hp : CPageOk (e.1.pages.getD e.2 CPage.zero) := e1.pagesOk _ (cv_getD_mem _ _ _ e4)
+  have hmod : max start (majorStart M) % 512 ≤ min end_ (majorStart M + 511) % 512 := by
+    unfold majorStart at *; omega
+  have ha := CPage.insertRange_abs _ (max start (majorStart M)) (min end_ (majorStart M + 511)) hp hmod
+  unfold cInsertRangeStep insertRangeStep
+  simp only []
+  rw [he, ← e2, hl]
+  simp only []
+  refine ⟨cInvS_set _ _ e1 _ _ (CPage.insertRange_ok _ _ _ hp), ?_, e3⟩
+  rw [aview_set _ _ e1 _ _ _ e5, ← ha]
+  rfl
+
+theorem cInsertRange_fold (start end_ : Nat) (hse : start ≤ end_) (cnt : Nat) (st : CBitSet × Nat)
+    (h : CInvS st.1.pageMap st.1.pages) (hcnt : majorOf start + cnt ≤ majorOf end_ + 1) :
+    CInvS ((List.range cnt).foldl (fun st i => cInsertRangeStep start end_ st (majorOf start + i)) st).1.pageMap
+      ((List.range cnt).foldl (fun st i => cInsertRangeStep start end_ st (majorOf start + i)) st).1.pages ∧
+    (aview ((List.range cnt).foldl (fun st i => cInsertRangeStep start end_ st (majorOf start + i)) st).1.pageMap
+        ((List.range cnt).foldl (fun st i => cInsertRangeStep start end_ st (majorOf start + i)) st).1.pages,
+      ((List.range cnt).foldl (fun st i => cInsertRangeStep start end_ st (majorOf start + i)) st).2)
+      = (List.range cnt).foldl (fun st i => insertRangeStep start end_ st (majorOf start + i))
+          (aview st.1.pageMap st.1.pages, st.2) ∧
+    ((List.range cnt).foldl (fun st i => cInsertRangeStep start end_ st (majorOf start + i)) st).1.len
+      = st.1.len := by
+  induction cnt with
+  | zero => exact ⟨h, rfl, rfl⟩
+  | succ c ih =>
+    obtain ⟨i1, i2, i3⟩ := ih (by omega)
+    rw [List.range_succ, List.foldl_append, List.foldl_append]
+    simp only [List.foldl_cons, List.foldl_nil]
+    generalize (List.range c).foldl
+        (fun st i => cInsertRangeStep start end_ st (majorOf start + i)) st = st' at i1 i2 i3
+    have hlo : max start (majorStart (majorOf start + c)) ≤
+        min end_ (majorStart (majorOf start + c) + 511) := by
+      unfold majorStart majorOf at *; omega
+    obtain ⟨s1, s2, s3⟩ := cInsertRangeStep_spec start end_ st' (majorOf start + c) i1 hlo
+    refine ⟨s1, ?_, by rw [s3, i3]⟩
+    rw [s2, i2]
+
+theorem CBitSet.insertRange_abs (s : CBitSet) (a b : Nat) (h : CInv s) :
+    (s.insertRange a b).abs = s.abs.insertRange a b := by
+  unfold CBitSet.insertRange BitSet.insertRange
+  split
+  · rfl
+  · rename_i hle
+    obtain ⟨f1, f2, f3⟩ := cInsertRange_fold a b (by omega) (majorOf b + 1 - majorOf a) (s, 0) h.toS
+      (by unfold majorOf; omega)
+    simp only []
+    rw [CBitSet.abs_eq]
+    simp only []
+    rw [f3]
+    have g1 := congrArg Prod.fst f2
+    have g2 := congrArg Prod.snd f2
+    simp only [] at g1 g2
+    rw [g1, g2, CBitSet.abs_eq s]
+
+theorem CBitSet.insertRange_inv (s : CBitSet) (a b : Nat) (h : CInv s) : CInv (s.insertRange a b) := by
+  apply cInv_of_struct
+  · unfold CBitSet.insertRange
+    split
+    · exact h.toS
+    · rename_i hle
+      exact (cInsertRange_fold a b (by omega) (majorOf b + 1 - majorOf a) (s, 0) h.toS
+        (by unfold majorOf; omega)).1
+  · rw [CBitSet.insertRange_abs s a b h]
+    exact (BitSet.insertRange_spec _ a b (CBitSet.abs_inv s h)).1
+
+/-! ### `remove_range` -/
+
+/-- what the `remove_range` loop does to the concrete page stored under major `k` -/
+def rrCPage (start end_ sm em k : Nat) (p : CPage) : CPage :=
+  if k < sm then p
+  else if k > em then p
+  else if k = sm then p.removeRange start (min (majorStart sm + 511) end_)
+  else if k = em then p.removeRange (majorStart em) end_
+  else p.clear
+
+/-- the `loop` of `remove_range` as a recursion over the remaining map entries -/
+def rrLoopL (start end_ sm em : Nat) : PMap → List CPage → List CPage
+  | [], pages => pages
+  | info :: rest, pages =>
+    if info.2 < pages.length then
+      if info.1 > em then pages
+      else if info.1 = sm then
+        rrLoopL start end_ sm em rest
+          (pages.set info.2 ((pages.getD info.2 CPage.zero).removeRange start (min (majorStart sm + 511) end_)))
+      else if info.1 = em then
+        pages.set info.2 ((pages.getD info.2 CPage.zero).removeRange (majorStart em) end_)
+      else rrLoopL start end_ sm em rest (pages.set info.2 (pages.getD info.2 CPage.zero).clear)
+    else pages
+
+theorem cRemoveRangeLoop_eq (start end_ sm em : Nat) (pm : PMap) (fuel i : Nat) (pages : List CPage)
+    (hf : pm.length ≤ fuel + i) :
+    cRemoveRangeLoop start end_ sm em pm fuel i pages = rrLoopL start end_ sm em (pm.drop i) pages := by
+  induction fuel generalizing i pages with
+  | zero =>
+    rw [List.drop_eq_nil_of_le (by omega)]
+    rfl
+  | succ fuel ih =>
+    unfold cRemoveRangeLoop
+    by_cases hi : i < pm.length
+    · rw [if_pos hi, List.drop_eq_getElem_cons hi]
+      have hg : pm.getD i (0, 0) = pm[i] := by
+        rw [List.getD_eq_getElem?_getD, List.getElem?_eq_getElem hi]; rfl
+      simp only [hg, rrLoopL]
+      rw [ih (i + 1) _ (by omega), ih (i + 1) _ (by omega)]
+    · rw [if_neg hi, List.drop_eq_nil_of_le (by omega)]
+      rfl
+
+theorem rrCPage_ok (start end_ sm em k : Nat) (p : CPage) (h : CPageOk p) :
+    CPageOk (rrCPage start end_ sm em k p) := by
+  unfold rrCPage
+  split
+  · exact h
+  · split
+    · exact h
+    · split
+      · exact CPage.removeRange_ok _ _ _ h
+      · split
+        · exact CPage.removeRange_ok _ _ _ h
+        · exact CPage.clear_ok _ h
+
+theorem rrCPage_abs (start end_ : Nat) (hse : start ≤ end_) (k : Nat) (p : CPage) (h : CPageOk p) :
+    (rrCPage start end_ (majorOf start) (majorOf end_) k p).abs =
+      rrPage start end_ (majorOf start) (majorOf end_) k p.abs := by
+  unfold rrCPage rrPage
+  split
+  · rfl
+  · split
+    · rfl
+    · split
+      · apply CPage.removeRange_abs _ _ _ h
+        unfold majorStart majorOf at *; omega
+      · split
+        · apply CPage.removeRange_abs _ _ _ h
+          unfold majorStart majorOf at *; omega
+        · exact CPage.clear_abs _ h
+
+theorem rrLoopL_ok (start end_ sm em : Nat) (rest : PMap) (pages : List CPage)
+    (h : ∀ p ∈ pages, CPageOk p) : ∀ p ∈ rrLoopL start end_ sm em rest pages, CPageOk p := by
+  induction rest generalizing pages with
+  | nil => exact h
+  | cons info rest ih =>
+    have hset : ∀ q, CPageOk q → ∀ p ∈ pages.set info.2 q, CPageOk p := by
+      intro q hq p hp
+      rcases List.mem_or_eq_of_mem_set hp with hp | hp
+      · exact h p hp
+      · exact hp ▸ hq
+    unfold rrLoopL
+    split
+    · rename_i hlt
+      have hpg := h _ (cv_getD_mem pages info.2 CPage.zero hlt)
+      split
+      · exact h
+      · split
+        · exact ih _ (hset _ (CPage.removeRange_ok _ _ _ hpg))
+        · split
+          · exact hset _ (CPage.removeRange_ok _ _ _ hpg)
+          · exact ih _ (hset _ (CPage.clear_ok _ hpg))
+    · exact h
+
+/-- pointwise description of the pages vector after the loop -/
+theorem rrLoopL_spec (start end_ sm em : Nat) (hsm : sm ≤ em) (rest : PMap) (pages : List CPage)
+    (hs : (rest.map (·.1)).Pairwise (· < ·)) (hn : (rest.map (·.2)).Nodup)
+    (hge : ∀ e ∈ rest, sm ≤ e.1) (hlt : ∀ e ∈ rest, e.2 < pages.length) :
+    (rrLoopL start end_ sm em rest pages).length = pages.length ∧
+    (∀ e ∈ rest, (rrLoopL start end_ sm em rest pages).getD e.2 CPage.zero =
+      rrCPage start end_ sm em e.1 (pages.getD e.2 CPage.zero)) ∧
+    (∀ j, (∀ e ∈ rest, e.2 ≠ j) →
+      (rrLoopL start end_ sm em rest pages).getD j CPage.zero = pages.getD j CPage.zero) := by
+  induction rest generalizing pages with
+  | nil => exact ⟨rfl, by simp, fun _ _ => rfl⟩
+  | cons info rest ih =>
+    simp only [List.map_cons, List.pairwise_cons, List.mem_map, forall_exists_index, and_imp,
+      forall_apply_eq_imp_iff₂, List.nodup_cons, not_exists, not_and] at hs hn
+    obtain ⟨hk, hrest⟩ := hs
+    obtain ⟨hi, hnrest⟩ := hn
+    have hlt0 := hlt info (by simp)
+    have hge0 := hge info (by simp)
+    -- the two shapes of a step
+    have hcont : ∀ q : CPage, q = rrCPage start end_ sm em info.1 (pages.getD info.2 CPage.zero) →
+        (rrLoopL start end_ sm em rest (pages.set info.2 q)).length = pages.length ∧
+        (∀ e ∈ info :: rest, (rrLoopL start end_ sm em rest (pages.set info.2 q)).getD e.2 CPage.zero =
+          rrCPage start end_ sm em e.1 (pages.getD e.2 CPage.zero)) ∧
+        (∀ j, (∀ e ∈ info :: rest, e.2 ≠ j) →
+          (rrLoopL start end_ sm em rest (pages.set info.2 q)).getD j CPage.zero
+            = pages.getD j CPage.zero) := by
+      intro q hq
+      obtain ⟨i1, i2, i3⟩ := ih (pages.set info.2 q) hrest hnrest
+        (fun e he => hge e (by simp [he]))
+        (fun e he => by rw [List.length_set]; exact hlt e (by simp [he]))
+      refine ⟨by rw [i1, List.length_set], ?_, ?_⟩
+      · intro e he
+        simp only [List.mem_cons] at he
+        rcases he with rfl | he
+        · rw [i3 _ (fun e' he' => hi e' he'), cv_getD_set, if_pos ⟨rfl, hlt0⟩, hq]
+        · rw [i2 e he, cv_getD_set, if_neg (fun hc => hi e he hc.1.symm)]
+      · intro j hj
+        rw [i3 j (fun e he => hj e (by simp [he])), cv_getD_set,
+          if_neg (fun hc => hj info (by simp) hc.1)]
+    have hstop : ∀ q : CPage, q = rrCPage start end_ sm em info.1 (pages.getD info.2 CPage.zero) →
+        em ≤ info.1 →
+        (pages.set info.2 q).length = pages.length ∧
+        (∀ e ∈ info :: rest, (pages.set info.2 q).getD e.2 CPage.zero =
+          rrCPage start end_ sm em e.1 (pages.getD e.2 CPage.zero)) ∧
+        (∀ j, (∀ e ∈ info :: rest, e.2 ≠ j) →
+          (pages.set info.2 q).getD j CPage.zero = pages.getD j CPage.zero) := by
+      intro q hq hem
+      refine ⟨List.length_set, ?_, ?_⟩
+      · intro e he
+        simp only [List.mem_cons] at he
+        rcases he with rfl | he
+        · rw [cv_getD_set, if_pos ⟨rfl, hlt0⟩, hq]
+        · rw [cv_getD_set, if_neg (fun hc => hi e he hc.1.symm)]
+          have h1 := hk e he
+          have h2 := hge e (by simp [he])
+          unfold rrCPage
+          rw [if_neg (by omega), if_pos (by omega)]
+      · intro j hj
+        rw [cv_getD_set, if_neg (fun hc => hj info (by simp) hc.1)]
+    unfold rrLoopL
+    rw [if_pos hlt0]
+    by_cases h1 : info.1 > em
+    · rw [if_pos h1]
+      refine ⟨rfl, ?_, fun _ _ => rfl⟩
+      intro e he
+      have h2 : e.1 > em := by
+        simp only [List.mem_cons] at he
+        rcases he with rfl | he
+        · exact h1
+        · have := hk e he; omega
+      have h3 := hge e he
+      unfold rrCPage
+      rw [if_neg (by omega), if_pos h2]
+    · rw [if_neg h1]
+      by_cases h2 : info.1 = sm
+      · rw [if_pos h2]
+        apply hcont
+        unfold rrCPage
+        rw [if_neg (by omega), if_neg h1, if_pos h2]
+      · rw [if_neg h2]
+        by_cases h3 : info.1 = em
+        · rw [if_pos h3]
+          apply hstop _ _ (by omega)
+          unfold rrCPage
+          rw [if_neg (by omega), if_neg h1, if_neg h2, if_pos h3]
+        · rw [if_neg h3]
+          apply hcont
+          unfold rrCPage
+          rw [if_neg (by omega), if_neg h1, if_neg h2, if_neg h3]
+
+/-- the concrete `remove_range` loop, seen through the map -/
+theorem removeRange_pages (s : CBitSet) (a b : Nat) (hab : a ≤ b) (h : CInvS s.pageMap s.pages) :
+    CInvS s.pageMap (cRemoveRangeLoop a b (majorOf a) (majorOf b) s.pageMap s.pageMap.length
+        (searchMap s.pageMap (majorOf a)).2 s.pages) ∧
+    aview s.pageMap (cRemoveRangeLoop a b (majorOf a) (majorOf b) s.pageMap s.pageMap.length
+        (searchMap s.pageMap (majorOf a)).2 s.pages) =
+      removeRangeLoop a b (majorOf a) (majorOf b) (aview s.pageMap s.pages) := by
+  have hmaj : majorOf a ≤ majorOf b := by unfold majorOf; omega
+  obtain ⟨s1, _, s3, s4, _, _⟩ := searchMap_spec s.pageMap h.sorted (majorOf a)
+  generalize (searchMap s.pageMap (majorOf a)).2 = i at s1 s3 s4
+  rw [cRemoveRangeLoop_eq _ _ _ _ _ _ _ _ (by omega)]
+  have hsplit : s.pageMap.take i ++ s.pageMap.drop i = s.pageMap := List.take_append_drop i s.pageMap
+  have hsorted := h.sorted
+  have hnodup := h.idxNodup
+  rw [← hsplit, List.map_append] at hsorted hnodup
+  have hsd := (List.pairwise_append.1 hsorted).2.1
+  rw [List.nodup_append] at hnodup
+  obtain ⟨_, hnd, hdisj⟩ := hnodup
+  have hltd : ∀ e ∈ s.pageMap.drop i, e.2 < s.pages.length :=
+    fun e he => h.idxLt e (List.mem_of_mem_drop he)
+  obtain ⟨r1, r2, r3⟩ := rrLoopL_spec a b (majorOf a) (majorOf b) hmaj (s.pageMap.drop i) s.pages
+    hsd hnd s4 hltd
+  have rok := rrLoopL_ok a b (majorOf a) (majorOf b) (s.pageMap.drop i) s.pages h.pagesOk
+  generalize rrLoopL a b (majorOf a) (majorOf b) (s.pageMap.drop i) s.pages = pages' at r1 r2 r3 rok
+  refine ⟨⟨by rw [r1]; exact h.lenEq, h.sorted, h.idxNodup, fun e he => by rw [r1]; exact h.idxLt e he,
+    rok⟩, ?_⟩
+  rw [removeRangeLoop_eq_map a b _ _ hmaj _ (aview_inv _ _ h).1]
+  unfold aview
+  rw [List.map_map]
+  apply List.map_congr_left
+  intro e he
+  simp only [Function.comp]
+  congr 1
+  have hpe : CPageOk (s.pages.getD e.2 CPage.zero) := h.pagesOk _ (cv_getD_mem _ _ _ (h.idxLt e he))
+  rw [← hsplit, List.mem_append] at he
+  rcases he with he | he
+  · have hk := s3 e he
+    rw [r3 e.2 (fun e' he' hc => hdisj e.2 (List.mem_map.2 ⟨e, he, rfl⟩) e'.2
+      (List.mem_map.2 ⟨e', he', rfl⟩) hc.symm)]
+    unfold rrPage
+    rw [if_pos hk]
+  · rw [r2 e he]
+    exact rrCPage_abs a b hab e.1 _ hpe
+
+theorem CBitSet.removeRange_abs (s : CBitSet) (a b : Nat) (h : CInv s) :
+    (s.removeRange a b).abs = s.abs.removeRange a b := by
+  unfold CBitSet.removeRange BitSet.removeRange
+  split
+  · rfl
+  · rename_i hle
+    obtain ⟨p1, p2⟩ := removeRange_pages s a b (by omega) h.toS
+    simp only []
+    rw [CBitSet.abs_eq, CBitSet.abs_eq s]
+    simp only []
+    rw [← p2, sumLens_aview _ _ p1]
+
+theorem CBitSet.removeRange_inv (s : CBitSet) (a b : Nat) (h : CInv s) : CInv (s.removeRange a b) := by
+  apply cInv_of_struct
+  · unfold CBitSet.removeRange
+    split
+    · exact h.toS
+    · rename_i hle
+      exact (removeRange_pages s a b (by omega) h.toS).1
+  · rw [CBitSet.removeRange_abs s a b h]
+    exact (BitSet.removeRange_spec _ a b (CBitSet.abs_inv s h)).1
+
 end FontVerif.IntSet
